@@ -232,8 +232,7 @@ def gen(repo) -> str:
         raise RegenError("_html_entities_escaper is no longer a plain constructor call")
     escaper_ctor = "%s(%s)" % (dotted(inst.func, "_html_entities_escaper"),
                                ", ".join(dotted(a, "_html_entities_escaper argument") for a in inst.args))
-    trim_f = find_func(tree.body, "trim", REL)
-    trim_body = ast.unparse(trim_f.body[-1]) if trim_f.body else ""
+    find_func(tree.body, "trim", REL)
 
     # --- XMLEntityEscaper
     cls = find_class(tree, "XMLEntityEscaper", REL)
@@ -317,8 +316,7 @@ def gen(repo) -> str:
     L.append("def entityEscaperCtor : List Char := " + lean_str(escaper_ctor))
     L.append("/-- the codec `url_escape` encodes with before `quote_plus` (normalised codec name) -/")
     L.append("def urlCodec : List Char := " + lean_str(url_codec))
-    L.append("/-- last statement of `trim` -/")
-    L.append("def trimBody : List Char := " + lean_str(trim_body) + "\n")
+    L.append("")
     L.append("/-- `markupsafe.escape` of the running interpreter: the characters it changes (identity on the rest of the BMP, checked at regen time) -/")
     L.append("def markupsafeEscapes : List (Char × List Char) := " + lean_pairs_char_str(ms) + "\n")
     L.append("/-- `XMLEntityEscaper.__escapable`: these characters, or any code point above `xeeAsciiMax` -/")
@@ -329,7 +327,8 @@ def gen(repo) -> str:
     L.append("def entityFormat : List Char := " + lean_str(entity_format))
     L.append("/-- fingerprint (sha1 prefix) of pattern+flags of `XMLEntityEscaper.__characterrefs`; pattern kept for reference:")
     L.append(ref_pat.replace("-/", "- /") + "\nflags: " + ref_flags + " -/")
-    L.append("def characterrefsFingerprint : List Char := " + lean_str(fingerprint) + "\n")
+    L.append("def characterrefsFingerprint : List Char := " + lean_str(fingerprint))
+    L.append("-- characterrefs-fingerprint: " + fingerprint + "\n")
     L.append("/-- `html.entities.codepoint2name` of the running interpreter (sorted by code point), %d entries -/" % len(c2n))
     L.append("def codepoint2name : List (Nat × List Char) := [\n" +
              ",\n".join("  (%d, %s)" % (c, lean_str(n)) for c, n in c2n) + "\n]\n")
@@ -341,9 +340,9 @@ def gen(repo) -> str:
     L.append("/-- regex class `\\d` on str patterns: inclusive ranges; the digit value of `c` in `(lo, hi)` is `(c - lo) %% 10` (checked at regen time against int()), %d code points -/" % len(digit))
     L.append("def digitRanges : List (Nat × Nat) := " + nat_pairs(drs) + "\n")
     wr = ranges(word)
-    L.append("/-- regex class `\\w` on str patterns: inclusive ranges, %d code points in %d ranges -/" % (len(word), len(wr)))
-    chunks = [wr[i:i + 8] for i in range(0, len(wr), 8)]
-    L.append("def wordRanges : List (Nat × Nat) := [\n" +
-             ",\n".join("  " + ", ".join("(%d, %d)" % (a, b) for a, b in ch) for ch in chunks) + "\n]\n")
+    L.append("/-- regex class `\\w` on str patterns: inclusive ranges sorted by lower bound, in chunks of 32 each preceded by its largest upper bound; %d code points in %d ranges -/" % (len(word), len(wr)))
+    chunks = [wr[i:i + 32] for i in range(0, len(wr), 32)]
+    L.append("def wordChunks : List (Nat × List (Nat × Nat)) := [\n" +
+             ",\n".join("  (%d, [%s])" % (ch[-1][1], ", ".join("(%d, %d)" % (a, b) for a, b in ch)) for ch in chunks) + "\n]\n")
     L.append("end MakoModel.Generated.Filters\n")
     return "\n".join(L)
